@@ -1294,6 +1294,17 @@ func checkC07ScanOwn(c *Ctx) {
 							}
 						case *ssa.MakeSlice:
 							n++
+						case *ssa.Call:
+							if b, isB := x.Call.Value.(*ssa.Builtin); isB && b.Name() == "append" {
+								// append(nil/fresh, …) yields a new array; append(shared, …) may write into the shared one
+								if isNilConst(strip(x.Call.Args[0])) {
+									n++
+								} else {
+									chase(x.Call.Args[0], d+1)
+								}
+							} else {
+								n++ // a value returned by another function: owned by whoever made it, not by the map object
+							}
 						case *ssa.FieldAddr, *ssa.Field:
 							bad = "storage held in " + accessPath(x)
 						case *ssa.UnOp:
